@@ -757,6 +757,9 @@ func scaledScenarios() []hx.Scenario {
 			}
 		}
 	}
+	// shards are handed out in list order and a part that runs out of budget
+	// skips the tail: the departing-subscriber family goes first
+	sort.SliceStable(out, func(a, b int) bool { return out[a].Class == classLeave && out[b].Class != classLeave })
 	return out
 }
 
